@@ -87,12 +87,36 @@ func runC30(c *Ctx) {
 		idx := 0
 		var fullSize ssa.Value
 		nMinus, nFull := 0, 0
+		// the sizes the function can return with a nil error: one per return, or one per incoming value when a
+		// single return yields a result variable (a phi); the guards are required where the value is computed
+		type sizeSite struct {
+			v ssa.Value
+			r ssa.Instruction
+			b *ssa.BasicBlock
+		}
+		var sites []sizeSite
 		for _, b := range fn.Blocks {
 			r, ok := b.Instrs[len(b.Instrs)-1].(*ssa.Return)
 			if !ok || !isNilConst(returnedValue(r, 1)) {
 				continue
 			}
-			v := r.Results[idx]
+			if ph, isPhi := r.Results[idx].(*ssa.Phi); isPhi && !strings.HasPrefix(trace(ph), "len(") {
+				for i, e := range ph.Edges {
+					var at ssa.Instruction
+					if in, isIn := e.(ssa.Instruction); isIn {
+						at = in
+					} else {
+						pb := ph.Block().Preds[i]
+						at = pb.Instrs[len(pb.Instrs)-1]
+					}
+					sites = append(sites, sizeSite{e, at, at.Block()})
+				}
+				continue
+			}
+			sites = append(sites, sizeSite{r.Results[idx], r, b})
+		}
+		for _, site := range sites {
+			v, r, b := site.v, site.r, site.b
 			t := trace(v)
 			isLen := func(s string) bool {
 				return s == "len(phi(Encode(p0)#0|Cbor(p0)))" || s == "len(phi(Cbor(p0)|Encode(p0)#0))" || s == "len(Cbor(p0))"
